@@ -1,5 +1,6 @@
 import YakModel.UnitCheck
 import YakModel.SeqCheck
+import YakModel.SessCheck
 
 open Yak
 
@@ -53,6 +54,40 @@ partial def runSeq (h : IO.FS.Stream) (cfg : Tree.Cfg) (focus : List String) : I
   IO.println s!"checked {n} diffs {bad}"
   return (if bad == 0 then 0 else 1)
 
+/-- session-table acceptor: one run per `RUN` header; capacity from the command line -/
+partial def runSess (h : IO.FS.Stream) (n : Nat) : IO UInt32 := do
+  let fresh : SessCheck.St := { cfg := { N := n }, s := Proto.Session.init { N := n } }
+  let mut st := fresh
+  let mut runs := 0
+  let mut bad := 0
+  let mut events := 0
+  let mut enters := 0
+  let mut fulls := 0
+  let mut casFails := 0
+  let mut lineNo := 0
+  let mut dead := false
+  repeat
+    let line ← h.getLine
+    if line.isEmpty then break
+    let l := line.trimAscii.toString
+    lineNo := lineNo + 1
+    if l.startsWith "RUN " then
+      events := events + st.events; enters := enters + st.enters; fulls := fulls + st.fulls; casFails := casFails + st.casFails
+      st := fresh
+      runs := runs + 1
+      dead := false
+    else if l.startsWith "T " && !dead then
+      match SessCheck.stepLine st l with
+      | .ok st' => st := st'
+      | .error e =>
+        bad := bad + 1
+        dead := true
+        if bad ≤ 5 then IO.println s!"DIFF class session run {runs} line {lineNo}: {l} :: {e}"
+  events := events + st.events; enters := enters + st.enters; fulls := fulls + st.fulls; casFails := casFails + st.casFails
+  IO.println s!"STATS runs={runs} model_events={events} enters={enters} max_sessions={fulls} cas_failures={casFails}"
+  IO.println s!"checked {lineNo} diffs {bad}"
+  return (if bad == 0 then 0 else 1)
+
 def cfgOf : String → Tree.Cfg
   | "d2" => { fixD2 := false }
   | "d5" => { fixD5 := false }
@@ -65,6 +100,7 @@ def main (args : List String) : IO UInt32 := do
   | ["unit"] => runLines stdin UnitCheck.checkLine
   | "seq" :: c :: focus => runSeq stdin (cfgOf c) focus
   | ["seq"] => runSeq stdin {} []
+  | ["sess", n] => runSess stdin (n.toNat?.getD 8)
   | _ => do
     IO.eprintln "usage: yakmodel unit | seq [fixed|d2|d5|d2d5] [focus classes…] < transcript"
     return 2
